@@ -293,7 +293,13 @@ func Register[C any](s Sub[C]) {
 		}
 		flag.Set("rapid.checks", strconv.Itoa(n))
 		flag.Set("rapid.seed", strconv.FormatUint(Seed(), 10))
-		flag.Set("rapid.shrinktime", "45s")
+		// VERIF_SHRINKTIME: seeded/run.py only needs the verdict "caught" and lowers the budget (every failing
+		// sub-check shrinks for up to this long, and they run one after the other)
+		if st := os.Getenv("VERIF_SHRINKTIME"); st != "" {
+			flag.Set("rapid.shrinktime", st)
+		} else {
+			flag.Set("rapid.shrinktime", "45s")
+		}
 		flag.Set("rapid.nofailfile", "true")
 		mu.Lock()
 		getStat(x.name).Requested = int64(n)
